@@ -1,0 +1,101 @@
+//go:build verif
+
+package kgo
+
+// Verification contracts (comments only), read by /verif/govc. Compiled only with -tags verif; no code.
+
+// ---- C30 (a): the work-start latch only ever performs its protocol's transitions, under every interleaving ----
+// workLoop.state: 0 = unstarted, 1 = working, 2 = continue working.
+//   signallers (maybeBegin):           0 -> 1 (the caller becomes the worker), 1 -> 2 (a running worker is told to go again)
+//   the worker (maybeFinish):          1 -> 0 (stop), 2 -> 1 (demote and run again)
+//   the worker (hardFinish):           anything -> 0
+// Every write to the field anywhere in the package is enumerated on every run. A CompareAndSwap is checked on its
+// (expected, new) pair under the path condition of the call; a Store is checked as a transition from the value
+// this thread last observed (maybeFinish stores 1 only after loading 2; that the value cannot change in between is
+// the protocol's role argument: no signaller transition leaves 2 and there is one worker - see DESIGN.md).
+// Consequences over the transition relation: true is returned by maybeBegin only for 0 -> 1, and only a worker
+// operation ever leaves {1, 2}; a signal that arrives while a worker runs moves 1 -> 2, which maybeFinish
+// answers with "run again".
+//@ audit atomic workLoop.state
+//@   prop C30
+//@   transitions 0->1, 1->2, 1->0, 2->1, *->0
+
+//@ func (l *workLoop) maybeBegin() (start bool)
+//@   prop C30
+//@   nopanic
+//@   site call CompareAndSwap#0 assert [unstarted-to-working] arg1 == 0 && arg2 == 1
+//@   site call CompareAndSwap#1 assert [working-to-continue] arg1 == 1 && arg2 == 2
+
+//@ func (l *workLoop) maybeFinish(again bool) (cont bool)
+//@   prop C30
+//@   nopanic
+//@   site call CompareAndSwap#0 assert [stop-is-working-to-unstarted] arg1 == 1 && arg2 == 0 && !again
+//@   site call Store#0 assert [demote-is-continue-to-working] arg1 == 1
+//@   ensures [continue-seen-means-run-again] reached($Store0) ==> cont
+//@   ensures [keeps-going-when-told] again ==> cont
+
+//@ func (l *workLoop) hardFinish()
+//@   prop C30
+//@   nopanic
+
+// ---- C30 (b): the ring, as a monitor ----
+// State protected by ring.mu: the buffer, head, length and the dead flag. Invariant (holds whenever mu is free,
+// for all schedules of pushers, the worker, die and resizes): the buffer is either unallocated and empty, or
+// fully used as a circular buffer of capacity >= 8 with head inside it and 0 <= l <= capacity.
+//@ monitor (r *ring) mu
+//@   prop C30
+//@   cond cond
+//@   protects r.elems, r.head, r.l, r.dead, elems(r.elems[:cap(r.elems)])
+//@   invariant [shape] (cap(r.elems) == 0 && len(r.elems) == 0 && r.head == 0 && r.l == 0) || (len(r.elems) == cap(r.elems) && cap(r.elems) >= 8 && 0 <= r.head && r.head < cap(r.elems) && 0 <= r.l && r.l <= cap(r.elems))
+//@   holds (*ring[T]).resize
+//@   init (*ring[T]).initMaxLen
+
+// resize (called with the lock held): the new buffer has exactly the requested capacity, head is 0, the length
+// is unchanged.
+//@ func (r *ring[T]) resize(newCap int)
+//@   prop C30
+//@   nopanic
+//@   requires (cap(r.elems) == 0 && len(r.elems) == 0 && r.head == 0 && r.l == 0) || (len(r.elems) == cap(r.elems) && cap(r.elems) >= 8 && 0 <= r.head && r.head < cap(r.elems) && 0 <= r.l && r.l <= cap(r.elems))
+//@   requires newCap >= 8 && newCap >= r.l && newCap <= 2147483648
+//@   modifies r.elems, r.head
+//@   ensures len(r.elems) == newCap && cap(r.elems) == newCap && r.head == 0 && r.l == old(r.l) && fresh(r.elems)
+
+// doPush, in its final critical section (after the last Wait): a dead ring rejects and is unchanged; otherwise the
+// length grows by one, `first` is true exactly when the ring was empty (the caller then starts the worker), and
+// the element is stored at the tail position. It blocks only while the ring is bounded, full and alive.
+//@ func (r *ring[T]) doPush(elem T, wait bool) (first bool, dead bool)
+//@   prop C30
+//@   nopanic
+//@   site call Wait#0 assert [blocks-only-while-full-and-alive] r.maxLen > 0 && r.l >= r.maxLen && !r.dead
+//   (listed assumption: a ring never holds 2^30 elements - it would not fit in memory)
+//@   site call resize#0 assume cap(r.elems) <= 1073741824
+//@   ensures [dead-rejects] dead == atcrit(r.dead) && r.dead == atcrit(r.dead)
+//@   ensures [dead-unchanged] dead ==> (!first && r.l == atcrit(r.l) && r.head == atcrit(r.head))
+//@   ensures [push-count] !dead ==> (r.l == atcrit(r.l) + 1 && first == (atcrit(r.l) == 0))
+//@   ensures [push-at-tail] !dead ==> r.elems[(r.head + r.l - 1) % cap(r.elems)] == elem
+
+// dropPeek, one critical section: an empty ring stays empty; otherwise the head slot is cleared, head advances by
+// one (circularly), the length shrinks by one, `more` is true exactly when elements remain (the worker continues
+// iff more) and `next` is then the element at the new head.
+//@ func (r *ring[T]) dropPeek() (next T, more bool, dead bool)
+//@   prop C30
+//@   nopanic
+//@   ensures [dead-flag] dead == atcrit(r.dead) && r.dead == atcrit(r.dead)
+//@   ensures [empty-stays-empty] atcrit(r.l) == 0 ==> (!more && r.l == 0)
+//@   ensures [pop-count] atcrit(r.l) > 0 ==> (r.l == atcrit(r.l) - 1 && more == (r.l > 0))
+//@   ensures [peek-is-new-head] more ==> next == r.elems[r.head]
+
+//@ func (r *ring[T]) die()
+//@   prop C30
+//@   nopanic
+//@   ensures [dead] r.dead && r.l == atcrit(r.l) && r.head == atcrit(r.head)
+
+// finishPromises peeks at the length under the lock (a test hook); it is under contract only so that its
+// critical section is checked against the monitor invariant like every other one.
+//@ func (p *producer) finishPromises(b batchPromise)
+//@   prop C30
+
+//@ func (r *ring[T]) empty() (e bool)
+//@   prop C30
+//@   nopanic
+//@   ensures e == (r.l == 0) && r.l == atcrit(r.l)
